@@ -135,3 +135,107 @@ Proof.
   unfold col_get in H. apply zget_In in H. exists c. split; [reflexivity|]. split; [exact CI|]. split; [exact H|].
   destruct CI as [_ C]. eapply C. exact H.
 Qed.
+
+(** * soundness of the pruning predicates *)
+
+Lemma existsb_false_in {A} (f : A -> bool) l : existsb f l = false -> forall x, In x l -> f x = false.
+Proof.
+  intros H x Hx. destruct (f x) eqn:E; [|reflexivity].
+  assert (existsb f l = true) by (apply existsb_exists; exists x; auto). congruence.
+Qed.
+
+(** what "outside K4" gives: no big integer, or no float, among the values involved *)
+Definition round_ok (l : list value) : Prop :=
+  (forall v, In v l -> is_big_int v = false) \/ (forall v, In v l -> is_float v = false).
+
+Lemma round_ok_of_class c o q : (o = OpLt \/ o = OpGt) -> k_zone_round_col c o q = false -> round_ok (q :: col_values c).
+Proof.
+  intros Ho H. assert (H' : existsb is_big_int (q :: col_values c) && existsb is_float (q :: col_values c) = false)
+    by (destruct Ho as [-> | ->]; exact H).
+  apply andb_false_iff in H'. destruct H' as [H'|H']; [left|right]; apply existsb_false_in; exact H'.
+Qed.
+
+Lemma round_ok_sub l l' : round_ok l -> (forall v, In v l' -> In v l) -> round_ok l'.
+Proof. intros [H|H] S; [left|right]; intros v Hv; apply H, S, Hv. Qed.
+
+Lemma not_big_round i : is_big_int (VInt i) = false -> round53 i = i.
+Proof.
+  cbn [is_big_int]. intros H. apply Z.leb_gt in H. apply round53_small.
+  change (2 ^ 53) with 9007199254740992. exact H.
+Qed.
+
+(** the strict comparisons: the bound compares Equal to the query value although a stored value is
+    strictly on the matching side -- impossible outside K4 *)
+Lemma strict_eq_contra_lt mn x q :
+  cmp_zone mn q = Some Eq -> cmp_range x q = Some Lt -> cmp_zone x mn <> Some Lt -> round_ok [q; x; mn] -> False.
+Proof.
+  pose proof scale_pos as SP. intros E R N OK. revert E R N.
+  destruct x, q; cbn [cmp_range]; try (intros ? ?; discriminate); destruct mn; cbn [cmp_zone]; try (intros ?; discriminate);
+    unfold cmp_int_f64, cmp_f64_int, f64_cmp;
+    repeat match goal with |- context [f64_num ?x] => destruct (f64_num x) eqn:? end; intros E R N; try discriminate E; try discriminate R.
+  - destruct b, b0, b1; cbn [bool_cmp] in R, E, N; try discriminate; congruence.
+  - zcmp. subst. apply N. f_equal. exact R.
+  - zcmp. destruct OK as [OK|OK].
+    + rewrite (not_big_round i) in N by (apply OK; cbn; auto). rewrite (not_big_round i0) in E by (apply OK; cbn; auto).
+      apply N. zcmp. nia.
+    + specialize (OK (VFloat bits)). cbn in OK. discriminate OK. auto.
+  - zcmp. apply N. zcmp. lia.
+  - zcmp. apply N. zcmp. lia.
+  - injection E as E. apply lex_cmp_eq in E. subst. apply N. exact R.
+Qed.
+
+Lemma strict_eq_contra_gt mx x q :
+  cmp_zone mx q = Some Eq -> cmp_range x q = Some Gt -> cmp_zone x mx <> Some Gt -> round_ok [q; x; mx] -> False.
+Proof.
+  pose proof scale_pos as SP. intros E R N OK. revert E R N.
+  destruct x, q; cbn [cmp_range]; try (intros ? ?; discriminate); destruct mx; cbn [cmp_zone]; try (intros ?; discriminate);
+    unfold cmp_int_f64, cmp_f64_int, f64_cmp;
+    repeat match goal with |- context [f64_num ?x] => destruct (f64_num x) eqn:? end; intros E R N; try discriminate E; try discriminate R.
+  - destruct b, b0, b1; cbn [bool_cmp] in R, E, N; try discriminate; congruence.
+  - zcmp. subst. apply N. f_equal. apply Z.compare_gt_iff. exact R.
+  - zcmp. destruct OK as [OK|OK].
+    + rewrite (not_big_round i) in N by (apply OK; cbn; auto). rewrite (not_big_round i0) in E by (apply OK; cbn; auto).
+      apply N. zcmp. nia.
+    + specialize (OK (VFloat bits)). cbn in OK. discriminate OK. auto.
+  - zcmp. apply N. zcmp. lia.
+  - zcmp. apply N. zcmp. lia.
+  - injection E as E. apply lex_cmp_eq in E. subst. apply N. exact R.
+Qed.
+
+Lemma cmp_range_nonnull x q c : cmp_range x q = Some c -> is_null x = false.
+Proof. destruct x; cbn; try discriminate; reflexivity. Qed.
+
+(** might_contain_less_than *)
+Lemma zone_lt_sound z x q incl :
+  covers z x ->
+  (cmp_range x q = Some Lt \/ (incl = true /\ cmp_range x q = Some Eq)) ->
+  (incl = false -> forall mn, z_min z = Some mn -> round_ok [q; x; mn]) ->
+  zone_lt z q incl = true.
+Proof.
+  intros C R OK. assert (NN : is_null x = false) by (destruct R as [R|[_ R]]; eapply cmp_range_nonnull; exact R).
+  unfold covers in C. rewrite NN in C. destruct C as (_ & (mn & Emn & Hmn) & _).
+  unfold zone_lt. rewrite Emn. destruct (cmp_zone mn q) as [[]|] eqn:E; try reflexivity.
+  - (* Eq *) destruct incl; [reflexivity|]. exfalso. destruct R as [R|[R _]]; [|discriminate R].
+    eapply strict_eq_contra_lt; try eassumption. apply OK; [reflexivity|exact Emn].
+  - (* Gt: the minimum is above the query value *)
+    exfalso. apply cmp_zone_gt_lt in E. destruct R as [R|[_ R]].
+    + apply Hmn. eapply cmp_zone_lt_trans; [apply cmp_range_zone; exact R|exact E].
+    + apply Hmn. rewrite (cmp_range_eq_congr x q mn R). exact E.
+Qed.
+
+(** might_contain_greater_than *)
+Lemma zone_gt_sound z x q incl :
+  covers z x ->
+  (cmp_range x q = Some Gt \/ (incl = true /\ cmp_range x q = Some Eq)) ->
+  (incl = false -> forall mx, z_max z = Some mx -> round_ok [q; x; mx]) ->
+  zone_gt z q incl = true.
+Proof.
+  intros C R OK. assert (NN : is_null x = false) by (destruct R as [R|[_ R]]; eapply cmp_range_nonnull; exact R).
+  unfold covers in C. rewrite NN in C. destruct C as (_ & _ & (mx & Emx & Hmx)).
+  unfold zone_gt. rewrite Emx. destruct (cmp_zone mx q) as [[]|] eqn:E; try reflexivity.
+  - destruct incl; [reflexivity|]. exfalso. destruct R as [R|[R _]]; [|discriminate R].
+    eapply strict_eq_contra_gt; try eassumption. apply OK; [reflexivity|exact Emx].
+  - exfalso. assert (E' : cmp_zone q mx = Some Gt) by (apply cmp_zone_gt_lt; exact E). destruct R as [R|[_ R]].
+    + apply Hmx. eapply cmp_zone_gt_trans; [apply cmp_range_zone; exact R|exact E'].
+    + apply Hmx. rewrite (cmp_range_eq_congr x q mx R). exact E'.
+Qed.
